@@ -48,6 +48,8 @@ def _build(friendly: bool, pos: str = "*"):
         schema.pitems = ListField(make_type_nt(_item_schema(nm, False), "Plain"), default=lambda: [])
     if pos in ("s.items2", "*"):
         schema.s.items2 = ListField(_item_schema(nm), default=lambda: [])
+    if pos in ("lst", "*"):
+        schema.lst = ListField(IntField(min=0), default=lambda: [], name=nm)
     if pos in ("d", "*"):
         schema.d = DictField(StringField(), IntField(min=0), default=lambda: {}, name=nm)
     if pos in ("s.d2", "*"):
@@ -101,6 +103,10 @@ def _run(pos: str, route_i: int, bad_i: int, n: int, i: int, ki: int, friendly: 
         keys = [base]
         leaf = [{"v": 1 if dup else j + 1} for j in range(n)]
         leaf[i] = {"v": 1, "dd": {key: bad}}
+    elif pos == "lst":
+        if isinstance(bad, list):
+            skip("a list is not a wrong item here")
+        want, keys, leaf = "lst", ["lst"], [1, bad, 2]
     elif pos == "d":
         want, keys, leaf = "d[%s]" % key, ["d"], {key: bad}
     elif pos == "s.d2":
@@ -136,6 +142,11 @@ def _run(pos: str, route_i: int, bad_i: int, n: int, i: int, ki: int, friendly: 
                             target.dd[key] = bad
                         else:
                             target.v = bad
+                    elif pos == "lst":
+                        if route == "dotted":
+                            cfg["lst"] = leaf
+                        else:
+                            cfg.lst = leaf
                     elif pos in ("d", "s.d2"):
                         if route == "dotted":
                             cfg[".".join(keys)] = {key: bad}
@@ -166,7 +177,7 @@ def _run(pos: str, route_i: int, bad_i: int, n: int, i: int, ki: int, friendly: 
     return True
 
 
-POSITIONS = ("a", "s.b", "s.t.c", "ct.v", "s.ct2.v", "items", "titems", "pitems", "s.items2", "items.dd", "titems.dd", "d", "s.d2")
+POSITIONS = ("lst", "a", "s.b", "s.t.c", "ct.v", "s.ct2.v", "items", "titems", "pitems", "s.items2", "items.dd", "titems.dd", "d", "s.d2")
 
 
 def _make(pos: str):
